@@ -9,6 +9,7 @@ import (
 	"os"
 	"regexp"
 	"sort"
+	"strconv"
 	"strings"
 	"sync"
 	"testing"
@@ -325,7 +326,16 @@ func c01Run(cs *c01Case) (msg string, compiled, executed bool) {
 	return "", true, xerr == nil
 }
 
-const c01HangBound = 30 * time.Second
+// c01HangBound: a case that does not come back within the bound ends the worker; the driver then
+// re-runs the journalled case alone, in a fresh process and with a six times longer bound
+// (VERIF_HANG_BOUND), and only that second verdict counts: slow but finite work - on a loaded
+// machine, or made slower by a change - is not a hang.
+var c01HangBound = func() time.Duration {
+	if v, err := strconv.Atoi(os.Getenv("VERIF_HANG_BOUND")); err == nil && v > 0 {
+		return time.Duration(v) * time.Second
+	}
+	return 30 * time.Second
+}()
 
 func checkC01(c any, r *Rec) error {
 	cs := c.(*c01Case)
